@@ -3,7 +3,15 @@ package main
 // splitmix64: one PRNG state per run; every random choice derives from it.
 type RNG struct{ s uint64 }
 
-func NewRNG(seed uint64) *RNG { return &RNG{s: seed*0x9E3779B97F4A7C15 + 0x1234567} }
+// The initial state is a hash of the seed (the splitmix finaliser with other constants), NOT seed * increment:
+// with the latter, the streams of seeds k and k+1 are the same stream shifted by one draw.
+func NewRNG(seed uint64) *RNG {
+	z := seed + 0x1234567
+	z = (z ^ (z >> 33)) * 0xFF51AFD7ED558CCD
+	z = (z ^ (z >> 33)) * 0xC4CEB9FE1A85EC53
+	z ^= z >> 33
+	return &RNG{s: z}
+}
 
 func (r *RNG) U64() uint64 {
 	r.s += 0x9E3779B97F4A7C15
